@@ -56,6 +56,9 @@ def build_scenario_parts(rng, nvars, opes=False, script=False, errors=False):
         biases += "harmonic {\n  name h%d\n  colvars v%d\n  centers %s\n  forceConstant %s\n%s}\n" % (
             i, i, fnum(rng.uniform(-3, 3)), fnum(rng.uniform(0.5, 5)), tsf)
     biases += "metadynamics {\n  name m1\n  colvars v0 v1\n  hillWeight 0.3\n  newHillFrequency 2\n  hillWidth 2.0\n  useGrids off\n}\n"
+    # metadynamics on grids whose hills are still pending when the final state is written (they are tabulated then, outside the
+    # per-step loop over biases, on a 100 x 100 grid)
+    biases += "metadynamics {\n  name m2\n  colvars v1 v2\n  hillWeight 0.2\n  newHillFrequency 1\n  gridsUpdateFrequency 1000\n  hillWidth 3.0\n}\n"
     biases += "histogram {\n  name hist\n  colvars v2\n}\n"
     biases += "harmonicWalls {\n  name w1\n  colvars v3\n  lowerWalls -1.0\n  upperWalls 1.0\n  forceConstant 2.0\n}\n"
     if not opes and not script:
